@@ -9,10 +9,12 @@
    Proved in addition (end of this file): the MAJOR stage specification of C02 (MajorSpec: score, admissibility, the enumeration of
    admissible combinations) commutes with every such transport.
    and the normalised region depths, the only input of the copy-number stage, are the same in both coordinate systems.
-   NOT proved: the same for the candidate filter and the minor stage (their models are not transported here); beyond the hypothesis, and for the implementation as a whole, harness/c13.py decides by a two-build differential on
+   and the MINOR stage specification of C04 (score incl. phase term, admissibility, property clauses) is invariant under every strictly
+   increasing position map (same-strand builds).
+   NOT proved: the same for the candidate filters of the two stages (their models are not transported here); beyond the hypothesis, and for the implementation as a whole, harness/c13.py decides by a two-build differential on
    stage results and scores (shipped genes hg19/hg38, generated opposite-strand databases). *)
 From Aldy Require Import Base Consts Transport TransportProofs.
-From Aldy Require Filter MajorModel MajorSpec MajorTransportProofs Norm NormProofs.
+From Aldy Require Filter MajorModel MajorSpec MajorTransportProofs Norm NormProofs MinorModel MinorSpec MinorTransportProofs.
 Open Scope Z_scope.
 
 Theorem C13_stage_equivariant : forall (tr : variant -> variant) (vars : list variant),
@@ -155,3 +157,38 @@ Theorem C13_region_moves : forall off top s e p,
 Proof. intros. split; [apply NormProofs.in_range_shift | apply NormProofs.in_range_mirror]. Qed.
 Goal True. idtac "ASSUME C13_region_moves". Abort.
 Print Assumptions C13_region_moves.
+
+(* ================================================================= the MINOR STAGE itself (MinorSpec.v, the object of the C04 theorems)
+   Moving every position of an instance (variants, sites, has_coverage positions, phase records) through a STRICTLY INCREASING map —
+   another build on the same strand, gapped alignments included — changes neither the score of any assignment (fit error, dropped /
+   added / novel penalties, tie-breaker, phase disagreement), nor its admissibility, nor any clause of the property.  Equalities are
+   Leibniz equalities of the computed values.  Monotonicity is used only for the read modes (sorted by position): on the opposite
+   strand the phase term is NOT invariant in the implementation either (open finding C13-opposite-strand-phase-term). ---- *)
+Theorem C13_minor_score_equivariant : forall (g : Z -> Z), (forall x y, x < y -> g x < g y) ->
+  forall (c : consts) (i : MinorModel.inst) (tie : bool) (asg : MinorSpec.assignment),
+  MinorSpec.score c (MinorTransportProofs.imap g i) tie (map (MinorTransportProofs.chmap g) asg) = MinorSpec.score c i tie asg.
+Proof. exact MinorTransportProofs.score_tr. Qed.
+Goal True. idtac "ASSUME C13_minor_score_equivariant". Abort.
+Print Assumptions C13_minor_score_equivariant.
+
+Theorem C13_minor_admissible_equivariant : forall (g : Z -> Z), (forall x y, x < y -> g x < g y) ->
+  forall (i : MinorModel.inst) (asg : MinorSpec.assignment),
+  MinorSpec.admissible (MinorTransportProofs.imap g i) (map (MinorTransportProofs.chmap g) asg) = MinorSpec.admissible i asg.
+Proof. exact MinorTransportProofs.admissible_tr. Qed.
+Goal True. idtac "ASSUME C13_minor_admissible_equivariant". Abort.
+Print Assumptions C13_minor_admissible_equivariant.
+
+Theorem C13_minor_clauses_equivariant : forall (g : Z -> Z), (forall x y, x < y -> g x < g y) ->
+  forall (i : MinorModel.inst) (asg : MinorSpec.assignment),
+  MinorSpec.clauses (MinorTransportProofs.imap g i) (map (MinorTransportProofs.chmap g) asg) = MinorSpec.clauses i asg.
+Proof. exact MinorTransportProofs.clauses_tr. Qed.
+Goal True. idtac "ASSUME C13_minor_clauses_equivariant". Abort.
+Print Assumptions C13_minor_clauses_equivariant.
+
+Example C13_minor_example :
+  let g := fun p : Z => p + 1000 in let a := MinorSpec.solver_asg MinorSpec.witness_p MinorSpec.witness_p_solver in
+  MinorSpec.score Consts_here.here (MinorTransportProofs.imap g MinorSpec.witness_p) false (map (MinorTransportProofs.chmap g) a) =
+    MinorSpec.score Consts_here.here MinorSpec.witness_p false a /\
+  MinorSpec.admissible MinorSpec.witness_p a = true /\ MinorSpec.score Consts_here.here MinorSpec.witness_p false a <> None /\
+  MinorModel.modes MinorSpec.witness_p <> [].
+Proof. exact MinorTransportProofs.mt_minor_example. Qed.
